@@ -22,6 +22,7 @@ def shards(tier, seed):
         for i in range(2 if q else 12):
             out.append({"name": f"{t}:{i}", "type": t, "cultures": 14 if q else 24, "patterns": 90 if q else 160})
     out.append({"name": "builtin", "type": "builtin", "n": 1500 if q else 30000})
+    out.append({"name": "name-prefix-cultures", "type": "prefix", "limit": 30 if q else None})
     out += [{"name": f"standard:{i}", "type": "standard", "cultures": 25 if q else None, "i": i, "k": 2 if q else 8} for i in range(2 if q else 8)]
     return out
 
@@ -195,7 +196,8 @@ def arbitrary_values(rng, tname, cal=None):
     from pyoda_time import AnnualDate, Duration, LocalTime, Offset
     from vf import gen
     if tname == "LocalTime":
-        return LocalTime.from_nanoseconds_since_midnight(rng.choice([0, DAY - 1, 1, 10**9 - 1, rng.randrange(DAY), rng.randrange(86400) * 10**9]))
+        return LocalTime.from_nanoseconds_since_midnight(rng.choice([0, DAY - 1, 1, 10**9 - 1, rng.randrange(DAY), rng.randrange(86400) * 10**9, rng.randrange(1440) * 60 * 10**9 + rng.choice([1, 500, 999999, 10**6, rng.randrange(10**9)]),
+                                                                     rng.randrange(24) * 3600 * 10**9 + rng.choice([0, 1, 60 * 10**9])]))
     if tname == "Offset":
         return Offset.from_seconds(rng.choice([0, 64800, -64800, 1, -1, rng.randint(-64800, 64800), rng.randrange(-72, 73) * 900]))
     if tname == "Duration":
@@ -209,7 +211,12 @@ def arbitrary_values(rng, tname, cal=None):
     d = gen.date_of(rng.choice([lo, hi, rng.randint(lo, hi), rng.randint(lo, hi)]), cal)
     if tname == "LocalDate":
         return d
-    return d.at(LocalTime.from_nanoseconds_since_midnight(rng.choice([0, DAY - 1, rng.randrange(DAY)])))
+    return d.at(LocalTime.from_nanoseconds_since_midnight(rng.choice([0, DAY - 1, rng.randrange(DAY), rng.randrange(1440) * 60 * 10**9 + rng.choice([1, 500, 999999, rng.randrange(10**9)]), rng.randrange(24) * 3600 * 10**9])))
+
+
+def G_pattern_class(tname):
+    from vf import textgen as G
+    return G.pattern_class(tname)
 
 
 def run_builtin(ctx, n):
@@ -221,6 +228,10 @@ def run_builtin(ctx, n):
     pats = [("LocalDate", "iso", T.LocalDatePattern.iso, "iso", 1), ("LocalDate", "full_roundtrip", T.LocalDatePattern.full_roundtrip, "any", 1),
             ("LocalTime", "extended_iso", T.LocalTimePattern.extended_iso, None, 1), ("LocalTime", "long_extended_iso", T.LocalTimePattern.long_extended_iso, None, 1),
             ("LocalTime", "general_iso", T.LocalTimePattern.general_iso, None, 10**9),
+            ("LocalTime", "hour_minute_iso", T.LocalTimePattern.hour_minute_iso, None, 60 * 10**9), ("LocalTime", "hour_iso", T.LocalTimePattern.hour_iso, None, 3600 * 10**9),
+            ("LocalTime", "variable_precision_iso", T.LocalTimePattern.variable_precision_iso, None, 1),
+            ("LocalDateTime", "variable_precision_iso", T.LocalDateTimePattern.variable_precision_iso, "iso", 1),
+            ("LocalDateTime", "date_hour_minute_iso", T.LocalDateTimePattern.date_hour_minute_iso, "iso", 60 * 10**9), ("LocalDateTime", "date_hour_iso", T.LocalDateTimePattern.date_hour_iso, "iso", 3600 * 10**9),
             ("LocalDateTime", "extended_iso", T.LocalDateTimePattern.extended_iso, "iso", 1), ("LocalDateTime", "general_iso", T.LocalDateTimePattern.general_iso, "iso", 10**9),
             ("LocalDateTime", "bcl_round_trip", T.LocalDateTimePattern.bcl_round_trip, "iso", 100), ("LocalDateTime", "full_roundtrip", T.LocalDateTimePattern.full_roundtrip, "any", 1),
             ("LocalDateTime", "full_roundtrip_without_calendar", T.LocalDateTimePattern.full_roundtrip_without_calendar, "iso", 1),
@@ -243,6 +254,20 @@ def run_builtin(ctx, n):
                     v = gen.ns_inst(gen.inst_ns(v) // unit * unit)
             ctx.key(("builtin", tname, pname, getattr(getattr(v, "calendar", None), "id", None)))
             check_roundtrip(ctx, tname, p, f"<{pname}>", "invariant", v, True, "builtin_roundtrips")
+    known = {(t_, n_) for t_, n_, *_ in pats}
+    for tname in TYPES:
+        P = G_pattern_class(tname)
+        for n_ in dir(type(P)):
+            if n_.startswith("_") or (tname, n_) in known:
+                continue
+            try:
+                v_ = getattr(P, n_)
+            except Exception:  # noqa: BLE001
+                continue
+            if hasattr(v_, "parse") and hasattr(v_, "format"):
+                ctx.note(f"built-in pattern {tname}.{n_} not in the round-trip table: idempotence only")
+                for _ in range(40):
+                    check_roundtrip(ctx, tname, v_, f"<{n_}>", "invariant", arbitrary_values(rng, tname), False, "builtin_roundtrips")
     ctx.sample({"builtin_patterns": [x[1] for x in pats]})
 
 
@@ -275,11 +300,60 @@ def run_standard(ctx, n_cult, i, k):
     ctx.sample({"standard": G.STANDARD["LocalDateTime"], "cultures": len(cults)})
 
 
+def run_prefix(ctx, limit):
+    """Cultures in which the genitive and nominative form of a month name are prefixes of one another: the parser must take the
+    longest match across both lists. Month-text patterns with and without a day field (the day field switches formatting to the genitive)."""
+    from pyoda_time import AnnualDate, LocalDate
+    from vf import textgen as G
+    rng = ctx.rng
+    hits = []
+    for c in G.cultures(rng, None)[1:]:
+        try:
+            fi = G.fmt_info(c)
+            for kind, a, b in (("MMM", fi.short_month_names, fi.short_month_genitive_names), ("MMMM", fi.long_month_names, fi.long_month_genitive_names)):
+                if any(a[i].casefold() != b[i].casefold() and (a[i].casefold().startswith(b[i].casefold()) or b[i].casefold().startswith(a[i].casefold())) for i in range(1, 13)):
+                    if G.names_ok(fi, kind):
+                        hits.append((c, kind))
+        except Exception as e:  # noqa: BLE001
+            ctx.exc(e)
+    ctx.counters["prefix_cultures_found"] += len(hits)
+    if limit is not None and len(hits) > limit:
+        hits = rng.sample(hits, limit)
+    LD = G.pattern_class("LocalDate"); AD = G.pattern_class("AnnualDate"); LDT = G.pattern_class("LocalDateTime")
+    for culture, kind in hits:
+        for pt in (kind, f"{kind} uuuu", f"uuuu {kind}", f"d {kind} uuuu", f"{kind} d", f"uuuu-{kind}-dd", f"'x'{kind}"):
+            p = None
+            try:
+                p = LD.create(pt if len(pt) > 1 else "%" + pt, culture)
+            except Exception as e:  # noqa: BLE001
+                ctx.exc(e); continue
+            hasday = "d" in pt.replace("'x'", "")
+            for m in range(1, 13):
+                v = LocalDate(2000 if "uuuu" not in pt else rng.choice([1999, 2024, 1, 9999]), m, rng.randint(1, 28) if hasday else 1)
+                ctx.key(("prefix", culture.name, pt, m))
+                check_roundtrip(ctx, "LocalDate", p, pt, culture.name, v, True, "custom_roundtrips")
+        for pt in (f"{kind} d", f"d {kind}", f"dd-{kind}"):
+            try:
+                p = AD.create(pt, culture)
+            except Exception as e:  # noqa: BLE001
+                ctx.exc(e); continue
+            for m in range(1, 13):
+                check_roundtrip(ctx, "AnnualDate", p, pt, culture.name, AnnualDate(m, rng.randint(1, 28)), True, "custom_roundtrips")
+        try:
+            p = LDT.create(f"{kind} uuuu HH:mm", culture)
+            for m in range(1, 13):
+                check_roundtrip(ctx, "LocalDateTime", p, f"{kind} uuuu HH:mm", culture.name, LocalDate(2001, m, 1).at_midnight().plus_minutes(rng.randrange(1440)), True, "custom_roundtrips")
+        except Exception as e:  # noqa: BLE001
+            ctx.exc(e)
+    ctx.sample({"prefix_cultures": [c.name for c, _ in hits[:8]]})
+
+
 def run(ctx, shard):
-    for k in REQUIRED["any"] + ["generated_pattern_rejected", "create_raised_other"]:
+    for k in REQUIRED["any"] + ["generated_pattern_rejected", "create_raised_other", "prefix_cultures_found"]:
         ctx.counters.setdefault(k, 0)
     t = shard["type"]
-    if t == "builtin": run_builtin(ctx, shard["n"])
+    if t == "prefix": run_prefix(ctx, shard["limit"])
+    elif t == "builtin": run_builtin(ctx, shard["n"])
     elif t == "standard": run_standard(ctx, shard["cultures"], shard["i"], shard["k"])
     else: run_type(ctx, t, shard["cultures"], shard["patterns"])
 
